@@ -78,3 +78,14 @@ Proof.
   - destruct (Nat.eqb_spec x y); subst; cbn; auto.
   - rewrite mem_app. cbn. rewrite orb_false_r. apply orb_comm.
 Qed.
+
+(* upd_head touches the stack only *)
+Lemma upd_head_fields : forall s g,
+  objs (upd_head s g) = objs s /\ nobj (upd_head s g) = nobj s /\ snew (upd_head s g) = snew s /\
+  sdel (upd_head s g) = sdel s /\ eoc (upd_head s g) = eoc s /\ handles (upd_head s g) = handles s /\
+  committed (upd_head s g) = committed s /\ work (upd_head s g) = work s /\ saves (upd_head s g) = saves s /\
+  nfid (upd_head s g) = nfid s /\
+  stack (upd_head s g) = match stack s with [] => [] | f :: r => g f :: r end.
+Proof.
+  intros s g. unfold upd_head. destruct (stack s) eqn:E; cbn; rewrite ?E; repeat split; reflexivity.
+Qed.
